@@ -818,7 +818,8 @@ ProbeStep(m0, e) ==
   IF e.kind = "tail" THEN TailProbe(m, e)
   ELSE IF e.kind \in {"damage", "missing"} THEN DamageProbe(m, e)
   ELSE IF e.kind # "crash" THEN m
-  ELSE IF ~ImageAllowed(m, e.img) THEN Note(m, "probe_image_outside_crash_model", e)
+  ELSE IF "gen2" \notin DOMAIN e /\ ~ImageAllowed(m, e.img) THEN Note(m, "probe_image_outside_crash_model", e)
+  \* (gen2: the image is an allowed image after some of the recovery's own file-modifying calls, then power loss)
   ELSE IF e.rc = "panic" THEN ViolKeep(m, "C05", "recovery_panicked", e, [res |-> e.res, img |-> e.img])
   ELSE IF e.rc = "err"
   THEN IF ~e.tr /\ \E k \in 1..Len(e.img) : e.img[k][4] # "none"
